@@ -1131,6 +1131,9 @@ def gen_C19(tier, rng):
         cases.append(c.done(c.id, True))
     # parsing through the constructor, exception kinds
     strings = ["a & b", "a | !b & c", "(a", "a &", "", "a b", "{x y} | t", "a ∧ ¬b", "NOT a", "true", "F", "a & & b", "}", "((a))", "v", "a v b"]
+    # one or more strings for every error kind the parser can construct (the exception kind is per variant in the wrappers)
+    strings += ["a)", ")", "(a))", "((a)", "(", "a}", "{a}}", "{a", "{", "a & {b", "{}", "a & {}", "{} | b", "({})", "a $ b", "?", "a # b", "a & ", "& a", "a | | b",
+                "!", "a !", "()", "a (b)", "{a}{b}", "a {b}", "1 0", "\t", " ", "a &\n", "¬", "a ∧", "∨ a"]
     for _ in range(60 if tier == "quick" else 600): strings.append(rnd_sentence(rng, rng.randint(1, 3)))
     for k in range(0, len(strings), 20):
         c = Case("c19_p%d" % k)
@@ -1141,12 +1144,13 @@ def gen_C19(tier, rng):
         dist["parse"] += 1
         cases.append(c.done(c.id, True))
     # CSV import through both entry points, error kinds
-    texts = ["a,r\n0,1\n1,0\n", "0,1\n1,0\n", "", "a,r\n0,1\n", "a,a,r\n0,0,1\n0,1,1\n1,0,0\n1,1,0\n", "a,r\n0,x\n1,0\n", "a,r\n0,1\n1\n", "a,b,result\n", "\n", "a,r\n0,1\n0,0\n"]
+    texts = ["a,r\n0,1\n1,0\n", "0,1\n1,0\n", "", "a,r\n0,1\n", "a,a,r\n0,0,1\n0,1,1\n1,0,0\n1,1,0\n", "a,r\n0,x\n1,0\n", "a,r\n0,1\n1\n", "a,b,result\n", "\n", "a,r\n0,1\n0,0\n", "a,r\n0,1\nx,0\n", "a,b,r\n0,0,1\n0,1,1\n1,0,0\n", "x y,r\n1,1\n0,0\n", "a,r\r\n0,T\r\n1,F", "a,r\n0,1\n1,0,1\n"]
     for k in range(0, len(texts), 5):
         c = Case("c19_c%d" % k)
         for t_ in texts[k:k + 5]:
             for w in ("str", "file"):
                 r = c.r("csvin %s %s" % (w, hexname(t_))); c.q("obs %d" % r); c.q("csvdef %d" % r)
+        if k == 0: r = c.r("csvin missing -"); c.q("obs %d" % r)
         dist["csv"] += 1
         cases.append(c.done(c.id, True))
     # the documented refusal surfaces as an exception too
